@@ -238,9 +238,13 @@ def expected_events(pools, lang, pool, frags):
     tags = pools.langs[lang]["tags"]
     specs = pool.split("/")
 
+    first = {}
+    for r in tags:
+        first.setdefault((r[1], r[2]), r[0])      # a token with two names (AirSync page 14 token 0x10) decodes to the first
+
     def tname(i):
         r = tags[i]
-        return "T.%d.%d.%s" % (r[1], r[2], r[0].encode().hex())
+        return "T.%d.%d.%s" % (r[1], r[2], first[(r[1], r[2])].encode().hex())
 
     def node_events(toks, pos):
         t = toks[pos]
